@@ -2,7 +2,7 @@
    instance names the function to run. *)
 From Coq Require Import List ZArith.
 Import ListNotations.
-From V Require Import Valid.Run Model.RunC13 Model.Edits2 Model.IterHier.
+From V Require Import Valid.Run Model.RunC13 Model.Edits2 Model.IterHier Model.BytecodeRun.
 Local Open Scope Z_scope.
 
 Definition run_any (rows : list (list Z)) : list Z :=
@@ -10,6 +10,7 @@ Definition run_any (rows : list (list Z)) : list Z :=
   | [113] :: rest => run_c13 rest
   | [114] :: rest => run_c14 rest
   | [116] :: rest => run_c16 rest
+  | [109] :: rest => run_c09 rest
   | [100] :: rest => run_instance rest
   | _ => run_instance rows
   end.
